@@ -602,6 +602,19 @@ func indUnits(prop string) func(tier string) []core.Unit {
 				inst := e.New(cfg)
 				us = append(us, core.Unit{Key: e.Name + fmtCfg(cfg), Cost: 1 + inst.Idle, Run: func(c *core.Ctx) { indTrieUnit(c, e, cfg, prop) }})
 			}
+			if prop == "C01" || prop == "C02" {
+				us = append(us, core.Unit{Key: "large periods: " + e.Name, Cost: 60, First: true, Run: func(c *core.Ctx) { indLargeValuesUnit(c, e, prop) }})
+			}
+			// the same with every smoothing constant of the object off its default (values only; see smoothing.go)
+			if v := smoothedInd(e); v != nil && prop == "C01" {
+				for i, cfg := range e.Cfgs(tier == "thorough") {
+					cfg := cfg
+					if tier != "thorough" && i%2 == 1 {
+						continue
+					}
+					us = append(us, core.Unit{Key: v.Name + fmtCfg(cfg), Cost: 1 + e.New(cfg).Idle, Run: withSmoothing(func(c *core.Ctx) { indTrieUnit(c, v, cfg, prop) })})
+				}
+			}
 		}
 		return us
 	}
